@@ -89,9 +89,12 @@ func genFaulty(r *simrt.RNG, tier string, variant int, prop string) Plan {
 		case x < 5:
 			op.Kind = "call"
 		case x < 8:
-			op.Kind = "retry"
+			op.Kind = Pick(r, []string{"retry", "retry", "retry-noctx"})
 		default:
 			op.Kind = "notify"
+		}
+		if op.Kind == "call" && r.Bool(0.15) {
+			op.Kind = "call-noctx"
 		}
 		if client > 0 {
 			op.Kind = Pick(r, []string{"call", "notify", "call"})
@@ -116,6 +119,19 @@ func genFaulty(r *simrt.RNG, tier string, variant int, prop string) Plan {
 		p.Ops = append(p.Ops, op)
 	}
 
+	if prop == "C04" && len(p.Clients) > 1 && p.Clients[1].Kind == "http" && r.Bool(0.7) {
+		// a chain of sequential requests on a keep-alive HTTP client, and a cut of
+		// its connection while a request is being served (after k yields)
+		p.Clients[1].KeepAlive = true
+		p.Family = "faulty"
+		nchain := 3 + r.Intn(3)
+		for i := 0; i < nchain; i++ {
+			op := Op{Client: 1, Tok: tok, Phase: 4, Kind: Pick(r, []string{"call", "call", "notify"}), Hold: i > 0 && r.Bool(0.6)}
+			tok++
+			p.Ops = append(p.Ops, op)
+		}
+		p.Faults = append(p.Faults, Fault{Kind: "http-cut", Dir: Pick(r, []string{"fin", "rst"}), Frame: -1, Pipe: -3, Phase: 3 + r.Intn(40)})
+	}
 	if p.Family == "healthy" {
 		return p
 	}
@@ -222,6 +238,19 @@ func runFaulty(e *Env, p *Plan) {
 			e.N.RefuseNext(addr, f.N)
 		case f.Kind == "hang":
 			e.N.HangNext(addr, f.N)
+		case f.Kind == "http-cut":
+			f := *f
+			e.S.Go("http-cutter", func() {
+				for i := 0; i < f.Phase; i++ {
+					simrt.Yield("http-cut-delay")
+				}
+				for _, pipe := range e.N.Pipes() {
+					if !pipe.WS && pipe.Dead == "" {
+						e.Probe("http-connection-cut")
+						e.N.Inject(pipe.ID, f.Dir, "both", 0)
+					}
+				}
+			})
 		case f.Kind == "down":
 			// applied when the main fault fires (see below)
 		case f.Pipe == -2:
@@ -249,6 +278,21 @@ func runFaulty(e *Env, p *Plan) {
 		}
 	}
 
+	var chain []Op
+	for _, op := range p.Ops {
+		if op.Phase == 4 {
+			w.Register(op)
+			chain = append(chain, op)
+		}
+	}
+	if len(chain) > 0 {
+		e.S.Go("http-chain", func() {
+			for _, op := range chain {
+				simrt.Yield("chain-next")
+				w.Exec(op, nil)
+			}
+		})
+	}
 	for _, op := range p.Ops {
 		op := op
 		switch op.Phase {
@@ -295,10 +339,28 @@ func runFaulty(e *Env, p *Plan) {
 			w.Start(op, nil)
 		}
 	}
+	stableFrom := e.S.Now()
 	if !e.S.Settle(H) {
 		return
 	}
 	_ = healStep
+	// a last probe after the long idle tail: the healed link must still be there
+	lateTok := 9000
+	w.Start(Op{Kind: "call", Client: 0, Tok: lateTok, Size: 10, Phase: 3}, nil)
+	if !e.S.Settle(time.Minute) {
+		return
+	}
+	if prop == "C05" && !p.Clients[0].NoReconnect {
+		for i, d := range e.N.Dials() {
+			if i > 0 && d.At > stableFrom {
+				e.Violate("C05.a-heals-itself", "the network has been healthy since %v and the client had reconnected, yet it dialed again at %v (the re-established link does not stay up)", stableFrom, d.At)
+				break
+			}
+		}
+		if t := e.Tok(lateTok); t.Returned && t.RetErr != nil {
+			e.Violate("C05.a-heals-itself", "a call issued %v after the network healed failed: %v", H, t.RetErr)
+		}
+	}
 
 	// ---- oracles ----------------------------------------------------------------
 	c0 := p.Clients[0]
@@ -328,7 +390,7 @@ func checkAtMostOnce(w *World, p *Plan) {
 			continue
 		}
 		switch t.Kind {
-		case "call", "alias":
+		case "call", "alias", "call-noctx":
 			if t.Execs > 1 {
 				e.Violate("C04.at-most-once", "untagged call tok=%d was executed %d times by the server", t.ID, t.Execs)
 			}
@@ -345,7 +407,7 @@ func checkAtMostOnce(w *World, p *Plan) {
 			if p.Family == "healthy" && t.Returned && t.RetErr != nil {
 				e.Violate("C04.notify-once-healthy", "notification tok=%d on a healthy connection failed locally: %v", t.ID, t.RetErr)
 			}
-		case "retry":
+		case "retry", "retry-noctx":
 			if t.Execs > 1 {
 				e.Probe("retry-tagged-call-executed-more-than-once")
 			}
@@ -354,7 +416,7 @@ func checkAtMostOnce(w *World, p *Plan) {
 	// wire: an untagged request id is written at most once; notifications have no id and get no response
 	retryTok := map[int]bool{}
 	for _, op := range p.Ops {
-		if op.Kind == "retry" {
+		if op.Kind == "retry" || op.Kind == "retry-noctx" {
 			retryTok[op.Tok] = true
 		}
 	}
@@ -416,12 +478,12 @@ func checkHealing(w *World, p *Plan, c0 ClientPlan, faultStep uint64) {
 		case op.Phase == 2 && c0.NoReconnect:
 			// may fail (if the connection was lost) but must not block: covered by the hang oracle
 		}
-		if op.Kind == "retry" && !c0.NoReconnect {
+		if (op.Kind == "retry" || op.Kind == "retry-noctx") && !c0.NoReconnect {
 			if t.RetErr != nil && isConnErr(t.RetErr) {
 				e.Violate("C05.b-retry-rides-out", "retry-tagged tok=%d returned the connection error instead of a genuine result: %v", t.ID, t.RetErr)
 			}
 		}
-		if (op.Kind == "call") && t.RetErr != nil && op.Client == 0 {
+		if (op.Kind == "call" || op.Kind == "call-noctx") && t.RetErr != nil && op.Client == 0 {
 			// the connection error proper (the library's "websocket connection closed"
 			// response); errors of a closed / dead client object are not constrained
 			var ce *jsonrpc.RPCConnectionError
